@@ -3,7 +3,7 @@
 # claimed check (quick): all must stay silent.  usage: refactortest.sh [-v] [name ...]
 cd /verif
 [ -x bin/gtcheck ] || ./build.sh
-SNAP=$(mktemp /tmp/gtcheck.snap.XXXXXX); cp bin/gtcheck $SNAP; export GTCHECK_BIN=$SNAP; trap "rm -f $SNAP" EXIT
+SNAP=$(mktemp /tmp/gtcheck.snap.XXXXXX); cp bin/gtcheck $SNAP; chmod +x $SNAP; export GTCHECK_BIN=$SNAP; trap "rm -f $SNAP" EXIT
 VERB=0; [ "$1" = "-v" ] && { VERB=1; shift; }
 PROPS=$(python3 -c "import json;print(' '.join(c['property_id'] for c in json.load(open('MANIFEST.json'))['checks']))")
 LIST="$@"; [ -z "$LIST" ] && LIST=$(ls selftest/refactors)
